@@ -204,6 +204,8 @@ impl<SE: crate::extensions::ShellExtensions> crate::Shell<SE> {
             return Ok(open_file);
         }
 
+        #[cfg(feature = "verif-hooks")]
+        crate::verif::open_point(&path_to_open)?;
         Ok(options.open(path_to_open)?.into())
     }
 
